@@ -213,8 +213,12 @@ def obj_tokens(text, length, addr):
     return mn, toks, length, addr
 
 
-def spec_vs_objdump(spec_s, obj):
+def spec_vs_objdump(spec_s, obj, ncode=None):
     """None if the Lean decoder's reading and objdump's agree, else a reason. obj = (text, length, addr) or None"""
+    if obj is not None and ncode is not None and obj[1] > ncode:
+        # objdump read into the padding behind the byte string: the string is a truncated instruction, which the
+        # reference decoder rejects
+        return None if spec_s == "?" else "spec accepts a truncated instruction"
     if obj is None:
         return None if spec_s == "?" else "objdump has no instruction here"
     mn, toks, length, addr = obj_tokens(*obj)
